@@ -16,6 +16,10 @@ class OperationExecutionHandle:
         self.stderr: Optional[OutputHandler] = None
         self.returncode: Optional[int] = None
         self.slot: Optional[int] = None
+        # Keeps the `subprocess.Popen` object (if any) alive until the process
+        # has been reaped by Conductor. Otherwise `Popen.__del__()` may reap
+        # the child process before Conductor's SIGCHLD handler does.
+        self.process = None
 
     @classmethod
     def from_async_process(cls, pid: int):
